@@ -52,11 +52,46 @@ def scale_of(*objs):
     return m
 
 
+def fam_axis_crossings(ctx, rng):
+    """segment x segment crossings, well inside both ranges, whose crossing point has a coordinate that is exactly 0; integer end points
+    in general position (the two evaluations of the point then differ by rounding noise around 0): the crossing is returned in both
+    operand orders"""
+    for _ in range(8):
+        c = (0, rng.randint(-60, 60)) if rng.random() < 0.5 else (rng.randint(-60, 60), 0)
+        da = (rng.randint(-13, 13), rng.randint(-13, 13)); db = (rng.randint(-13, 13), rng.randint(-13, 13))
+        if da[0] * db[1] - da[1] * db[0] == 0 or 0 in da or 0 in db:
+            continue
+        k1, k2, k3, k4 = rng.randint(3, 30), rng.randint(3, 30), rng.randint(3, 30), rng.randint(3, 30)
+        a = LineSegment2D.from_end_points(P2((float(c[0] - k1 * da[0]), float(c[1] - k1 * da[1]))), P2((float(c[0] + k2 * da[0]), float(c[1] + k2 * da[1]))))
+        b = LineSegment2D.from_end_points(P2((float(c[0] - k3 * db[0]), float(c[1] - k3 * db[1]))), P2((float(c[0] + k4 * db[0]), float(c[1] + k4 * db[1]))))
+        desc = {'a': repr(a.to_dict()), 'b': repr(b.to_dict()), 'crossing': c}
+        ctx.count('line2d.axis_crossing', key=(c[0] == 0, k1 + k2, k3 + k4), sample=desc, nontrivial=True)
+        for x, y, tag in ((a, b, 'a_b'), (b, a, 'b_a')):
+            r = x.intersect_line_ray(y)
+            if r is None:
+                ctx.violation('line2d.seg_seg:axis_crossing:missed', 'the transversal crossing at %r (a coordinate exactly 0) is not returned (%s)' % (c, tag), desc); return
+            if abs(r.x - c[0]) > 1e-7 or abs(r.y - c[1]) > 1e-7:
+                ctx.violation('line2d.seg_seg:axis_crossing:wrong_point', 'crossing %r expected %r' % (r, c), desc); return
+
+
 # ----------------------------------------------------------------- family 1
 def fam_lines2d(ctx, rng):
     ka, kb = rng.choice(['seg', 'ray']), rng.choice(['seg', 'ray'])
     a, b = lin(rng, ka), lin(rng, kb)
-    if rng.random() < 0.25:
+    if rng.random() < 0.2:
+        # a transversal crossing whose point has a coordinate that is exactly 0 (on a coordinate axis), between segments with
+        # integer end points in general position: the two ways of evaluating the point differ by rounding noise around 0
+        ka = kb = 'seg'
+        for _ in range(50):
+            c = (0, rng.randint(-60, 60)) if rng.random() < 0.5 else (rng.randint(-60, 60), 0)
+            da = (rng.randint(-9, 9), rng.randint(-9, 9)); db = (rng.randint(-9, 9), rng.randint(-9, 9))
+            if da[0] * db[1] - da[1] * db[0] == 0 or 0 in da or 0 in db:
+                continue
+            k1, k2, k3, k4 = rng.randint(3, 30), rng.randint(3, 30), rng.randint(3, 30), rng.randint(3, 30)
+            a = LineSegment2D.from_end_points(P2((float(c[0] - k1 * da[0]), float(c[1] - k1 * da[1]))), P2((float(c[0] + k2 * da[0]), float(c[1] + k2 * da[1]))))
+            b = LineSegment2D.from_end_points(P2((float(c[0] - k3 * db[0]), float(c[1] - k3 * db[1]))), P2((float(c[0] + k4 * db[0]), float(c[1] + k4 * db[1]))))
+            break
+    elif rng.random() < 0.25:
         # force a crossing: b passes through a point of a
         t = Fraction(rng.randint(1, 15), 16)
         pt = X.add(X.fpt(a.p), X.smul(t, X.fpt(a.v)))
@@ -576,7 +611,7 @@ def fam_arc3d_plane(ctx, rng):
             ctx.violation(fam + ':spurious:' + inverted, '%d sign changes along the arc but %d points returned' % (expected, len(res or [])), desc)
 
 
-FAMILIES = [(fam_polyface_plane, 40), (fam_lines2d, 60), (fam_arc_line, 40), (fam_line_plane, 30), (fam_plane_plane, 15), (fam_sphere, 30),
+FAMILIES = [(fam_axis_crossings, 30), (fam_polyface_plane, 40), (fam_lines2d, 60), (fam_arc_line, 40), (fam_line_plane, 30), (fam_plane_plane, 15), (fam_sphere, 30),
             (fam_polygon_line, 30), (fam_face, 25), (fam_face_plane, 15), (fam_polyface, 8), (fam_arc3d_plane, 15)]
 
 
